@@ -321,20 +321,38 @@ theorem pull_incompatible (g : GridKind) (su iu : LUnit) (o : LinkOut) (t : Int)
   · simp [convertAndCheck, hc]
 
 /-- **C08, shared memory.** Publishing a buffer that is the buffer of the previous (in-RAM)
-    publication is refused with a data error and leaves the history unchanged. -/
+    publication is refused with a data error and leaves the history unchanged — for a plain payload and for a
+    quantity in any spelling of the output's units (no conversion, hence no new array). -/
 theorem shared_memory_refused (g : GridKind) (u : LUnit) (o : LinkOut) (t : Int) (pu : Option LUnit)
-    (buf : Nat) (a : Arr) (h : o.lastBuf = some buf) :
+    (buf : Nat) (a : Arr) (h : o.lastBuf = some buf) (hc : converts u pu = false) :
     (∃ e, push g u o t pu buf a = .error e) := by
   simp only [push, bind, Except.bind]
   split
   · exact ⟨_, rfl⟩
-  · simp [h]
+  · simp [h, hc]
+
+theorem shared_memory_refused_plain (g : GridKind) (u : LUnit) (o : LinkOut) (t : Int)
+    (buf : Nat) (a : Arr) (h : o.lastBuf = some buf) : ∃ e, push g u o t none buf a = .error e :=
+  shared_memory_refused g u o t none buf a h rfl
+
+theorem shared_memory_refused_equivalent (g : GridKind) (u p : LUnit) (o : LinkOut) (t : Int)
+    (buf : Nat) (a : Arr) (h : o.lastBuf = some buf) (he : p.equivalent u = true) :
+    ∃ e, push g u o t (some p) buf a = .error e :=
+  shared_memory_refused g u o t (some p) buf a h (by simp [converts, he])
 
 theorem fresh_buffer_accepted (g : GridKind) (u : LUnit) (o : LinkOut) (t : Int) (pu : Option LUnit)
-    (buf : Nat) (a x : Arr) (h : o.lastBuf ≠ some buf) (hp : prepare g u pu a = .ok x) :
+    (buf : Nat) (a x : Arr) (h : o.lastBuf ≠ some buf) (hc : converts u pu = false) (hp : prepare g u pu a = .ok x) :
     push g u o t pu buf a = .ok ⟨o.hist ++ [⟨t, x⟩], some buf⟩ := by
   simp only [push, bind, Except.bind, hp]
-  simp [h]
+  simp [h, hc]
+
+/-- a converted payload is stored as a new array: accepted whatever buffer it came from, and the next publication
+    cannot alias it -/
+theorem converted_accepted (g : GridKind) (u : LUnit) (o : LinkOut) (t : Int) (pu : Option LUnit)
+    (buf : Nat) (a x : Arr) (hc : converts u pu = true) (hp : prepare g u pu a = .ok x) :
+    push g u o t pu buf a = .ok ⟨o.hist ++ [⟨t, x⟩], none⟩ := by
+  simp only [push, bind, Except.bind, hp]
+  simp [hc]
 
 example :
     let m : LUnit := ⟨[1], 1, 0⟩
